@@ -50,7 +50,17 @@ func runC03(c *Ctx) []Violation {
 		foreign = append(foreign, f.Input)
 	}
 	var desc []string
-	what := c.T.Weighted("c03.target", 3, 2, 2) // input, schema, both
+	what := c.T.Weighted("c03.target", 3, 2, 2, 4) // input, schema, both, schema at JSON-structure level
+	if what == 3 {
+		var d, kinds []string
+		ww.Schema, d, kinds = simio.DamageJSON(c.T, ww.Schema)
+		for _, k := range kinds {
+			c.Count("fault.schema."+k, 1)
+		}
+		for _, x := range d {
+			desc = append(desc, "schema: "+x)
+		}
+	}
 	if what == 1 || what == 2 {
 		var d, kinds []string
 		ww.Schema, d, kinds = simio.Damage(c.T, ww.Schema, foreign, jsMasker, 2)
@@ -107,7 +117,7 @@ func runC03(c *Ctx) []Violation {
 	det := func(extra ...string) []string {
 		d := []string{"world: " + w.Name, fmt.Sprintf("storage faults: %v", desc), "delivery plan: " + plan.String()}
 		d = append(d, extra...)
-		if len(ww.Schema) < 6000 && (what == 1 || what == 2) {
+		if len(ww.Schema) < 6000 && what >= 1 {
 			d = append(d, "damaged schema: "+string(ww.Schema))
 		}
 		if len(ww.Input) < 3000 {
